@@ -1,0 +1,122 @@
+//go:build verif
+
+// Contracts for the fiat-crypto field arithmetic (mod P), checked by /verif (vcgo).
+// Comment-only; excluded from normal builds.  e4(x) = x[0] + x[1]*W + x[2]*W^2 + x[3]*W^3, W = 2^64,
+// R = 2^256, fmP(x) = x * R^-1 in Z/P.  The `cut` clauses are the per-round Montgomery invariants.
+
+package secp256k1montgomery
+
+//@ func Uint64ToUint1
+//@   props C01 C17
+//@   ensures result == ite(u == 0, 0, 1)
+//@
+//@ func cmovznzU64
+//@   props C01 C17
+//@   requires arg1 <= 1
+//@   ensures *out1 == ite(arg1 == 0, arg2, arg3)
+//@   modifies out1
+//@
+//@ func Selectznz
+//@   props C01 C17
+//@   requires arg1 <= 1
+//@   ensures out1[0] == ite(arg1 == 0, old(arg2[0]), old(arg3[0]))
+//@   ensures out1[1] == ite(arg1 == 0, old(arg2[1]), old(arg3[1]))
+//@   ensures out1[2] == ite(arg1 == 0, old(arg2[2]), old(arg3[2]))
+//@   ensures out1[3] == ite(arg1 == 0, old(arg2[3]), old(arg3[3]))
+//@   modifies out1
+//@
+//@ func Nonzero
+//@   props C01 C17
+//@   ensures (*out1 == 0) <==> (arg1[0] == 0 && arg1[1] == 0 && arg1[2] == 0 && arg1[3] == 0)
+//@   modifies out1
+//@
+//@ func SetOne
+//@   props C01
+//@   ensures e4(out1) < P && fmP(e4(out1)) == 1
+//@   modifies out1
+//@
+//@ func Msat
+//@   props C01
+//@   ensures evalw(out1) == P
+//@   modifies out1
+//@
+//@ func Add
+//@   props C01
+//@   requires e4(arg1) < P && e4(arg2) < P
+//@   ensures e4(out1) < P
+//@   ensures e4(out1) == old(e4(arg1)) + old(e4(arg2)) - ite(old(e4(arg1)) + old(e4(arg2)) >= P, P, 0)
+//@   ensures fmP(e4(out1)) == fmP(old(e4(arg1))) + fmP(old(e4(arg2)))
+//@   using fm_add_P(e4(out1), old(e4(arg1)), old(e4(arg2)))
+//@   modifies out1
+//@
+//@ func Sub
+//@   props C01
+//@   requires e4(arg1) < P && e4(arg2) < P
+//@   ensures e4(out1) < P
+//@   ensures e4(out1) == old(e4(arg1)) - old(e4(arg2)) + ite(old(e4(arg1)) < old(e4(arg2)), P, 0)
+//@   ensures fmP(e4(out1)) == fmP(old(e4(arg1))) - fmP(old(e4(arg2)))
+//@   using fm_sub_P(e4(out1), old(e4(arg1)), old(e4(arg2)))
+//@   modifies out1
+//@
+//@ func Opp
+//@   props C01
+//@   requires e4(arg1) < P
+//@   ensures e4(out1) < P
+//@   ensures e4(out1) == ite(old(e4(arg1)) == 0, 0, P - old(e4(arg1)))
+//@   ensures fmP(e4(out1)) == -fmP(old(e4(arg1)))
+//@   using fm_sub_P(e4(out1), 0, old(e4(arg1)))
+//@   modifies out1
+//@
+//@ func Mul
+//@   props C01
+//@   requires e4(arg1) < P && e4(arg2) < P
+//@   using prodbound_P(e4(arg1), e4(arg2))
+//@   cut r0: (x39 + x41*W + x43*W2 + x45*W3 + x46*W4)*W == old(arg1[0])*old(e4(arg2)) + x20*P
+//@   cut r1: (x91 + x93*W + x95*W2 + x97*W3 + x99*W4)*W2 == (old(arg1[0]) + old(arg1[1])*W)*old(e4(arg2)) + (x20 + x72*W)*P
+//@   cut r2: (x144 + x146*W + x148*W2 + x150*W3 + x152*W4)*W3 == (old(arg1[0]) + old(arg1[1])*W + old(arg1[2])*W2)*old(e4(arg2)) + (x20 + x72*W + x125*W2)*P
+//@   cut r3: (x197 + x199*W + x201*W2 + x203*W3 + x205*W4)*W4 == old(e4(arg1))*old(e4(arg2)) + (x20 + x72*W + x125*W2 + x178*W3)*P
+//@   cut fin: (x216 + x217*W + x218*W2 + x219*W3) < P && (x216 + x217*W + x218*W2 + x219*W3)*R == old(e4(arg1))*old(e4(arg2)) + (x20 + x72*W + x125*W2 + x178*W3 - ite(x215 == 0, R, 0))*P
+//@   ensures e4(out1) < P
+//@   ensures fmP(e4(out1)) == fmP(old(e4(arg1))) * fmP(old(e4(arg2)))
+//@   using fm_mul_P(e4(out1), old(e4(arg1)), old(e4(arg2)), x20 + x72*W + x125*W2 + x178*W3 - ite(x215 == 0, R, 0))
+//@   modifies out1
+//@
+//@ func Square
+//@   props C01
+//@   requires e4(arg1) < P
+//@   using prodbound_P(e4(arg1), e4(arg1))
+//@   cut r0: (x39 + x41*W + x43*W2 + x45*W3 + x46*W4)*W == old(arg1[0])*old(e4(arg1)) + x20*P
+//@   cut r1: (x91 + x93*W + x95*W2 + x97*W3 + x99*W4)*W2 == (old(arg1[0]) + old(arg1[1])*W)*old(e4(arg1)) + (x20 + x72*W)*P
+//@   cut r2: (x144 + x146*W + x148*W2 + x150*W3 + x152*W4)*W3 == (old(arg1[0]) + old(arg1[1])*W + old(arg1[2])*W2)*old(e4(arg1)) + (x20 + x72*W + x125*W2)*P
+//@   cut r3: (x197 + x199*W + x201*W2 + x203*W3 + x205*W4)*W4 == old(e4(arg1))*old(e4(arg1)) + (x20 + x72*W + x125*W2 + x178*W3)*P
+//@   cut fin: (x216 + x217*W + x218*W2 + x219*W3) < P && (x216 + x217*W + x218*W2 + x219*W3)*R == old(e4(arg1))*old(e4(arg1)) + (x20 + x72*W + x125*W2 + x178*W3 - ite(x215 == 0, R, 0))*P
+//@   ensures e4(out1) < P
+//@   ensures fmP(e4(out1)) == fmP(old(e4(arg1))) * fmP(old(e4(arg1)))
+//@   using fm_mul_P(e4(out1), old(e4(arg1)), old(e4(arg1)), x20 + x72*W + x125*W2 + x178*W3 - ite(x215 == 0, R, 0))
+//@   modifies out1
+//@
+//@ func FromMontgomery
+//@   props C01
+//@   requires e4(arg1) < P
+//@   cut r0: (x20 + x22*W + x24*W2 + x26*W3 + x27*W4)*W == old(arg1[0]) + x2*P
+//@   cut r1: (x54 + x56*W + x58*W2 + x60*W3 + x61*W4)*W2 == old(arg1[0]) + old(arg1[1])*W + (x2 + x36*W)*P
+//@   cut r2: (x88 + x90*W + x92*W2 + x94*W3 + x95*W4)*W3 == old(arg1[0]) + old(arg1[1])*W + old(arg1[2])*W2 + (x2 + x36*W + x70*W2)*P
+//@   cut r3: (x122 + x124*W + x126*W2 + x128*W3 + x129*W4)*W4 == old(e4(arg1)) + (x2 + x36*W + x70*W2 + x104*W3)*P
+//@   cut fin: (x140 + x141*W + x142*W2 + x143*W3) < P && (x140 + x141*W + x142*W2 + x143*W3)*R == old(e4(arg1)) + (x2 + x36*W + x70*W2 + x104*W3 - ite(x139 == 0, R, 0))*P
+//@   ensures e4(out1) < P
+//@   ensures e4(out1) == lift(fmP(old(e4(arg1))))
+//@   using fm_from_P(e4(out1), old(e4(arg1)), x2 + x36*W + x70*W2 + x104*W3 - ite(x139 == 0, R, 0))
+//@   modifies out1
+//@
+//@ func ToMontgomery
+//@   props C01
+//@   requires e4(arg1) < P
+//@   cut r0: (x27 + x29*W + x31*W2 + x33*W3 + x34*W4)*W == old(arg1[0])*R2P + x9*P
+//@   cut r1: (x65 + x67*W + x69*W2 + x71*W3 + x72*W4)*W2 == (old(arg1[0]) + old(arg1[1])*W)*R2P + (x9 + x47*W)*P
+//@   cut r2: (x103 + x105*W + x107*W2 + x109*W3 + x110*W4)*W3 == (old(arg1[0]) + old(arg1[1])*W + old(arg1[2])*W2)*R2P + (x9 + x47*W + x85*W2)*P
+//@   cut r3: (x141 + x143*W + x145*W2 + x147*W3 + x148*W4)*W4 == old(e4(arg1))*R2P + (x9 + x47*W + x85*W2 + x123*W3)*P
+//@   cut fin: (x159 + x160*W + x161*W2 + x162*W3) < P && (x159 + x160*W + x161*W2 + x162*W3)*R == old(e4(arg1))*R2P + (x9 + x47*W + x85*W2 + x123*W3 - ite(x158 == 0, R, 0))*P
+//@   ensures e4(out1) < P
+//@   ensures fmP(e4(out1)) == fp(old(e4(arg1)))
+//@   using fm_to_P(e4(out1), old(e4(arg1)), x9 + x47*W + x85*W2 + x123*W3 - ite(x158 == 0, R, 0))
+//@   modifies out1
